@@ -19,12 +19,14 @@ use std::time::Duration;
 pub const URI_A: &str = "file:///w/a.st";
 pub const URI_B: &str = "file:///w/b.st";
 
-pub const TEXTS: [(&str, &str); 5] = [
+pub const TEXTS: [(&str, &str); 6] = [
     ("V", "TYPE Level : (Low, High) := Low; END_TYPE\nFUNCTION_BLOCK FbV\nVAR\n  a : INT;\nEND_VAR\n  a := 1;\nEND_FUNCTION_BLOCK\n"),
     ("X", "FUNCTION_BLOCK FbX\nVAR\n  a : INT;\nEND_VAR\n  (* \u{e9} *) a := ?;\nEND_FUNCTION_BLOCK\n"),
     ("S", "FUNCTION_BLOCK FbS\nVAR\n  a : INT;\nEND_VAR\n\n  a := ;\nEND_FUNCTION_BLOCK\n"),
     ("M", "FUNCTION_BLOCK FbM\nVAR\n  a : INT;\nEND_VAR\n  a := 1;\n  (* \u{e9}\u{20ac} *) undeclared := 2;\nEND_FUNCTION_BLOCK\n"),
     ("D", "FUNCTION_BLOCK FbD\nVAR\n  lv : Level := Low;\nEND_VAR\nEND_FUNCTION_BLOCK\n"),
+    // the same program as M in another layout (same tree, every offset different)
+    ("L", "(* moved *)\n\nFUNCTION_BLOCK FbM VAR a : INT; END_VAR\n\n      a := 1;\n   undeclared   :=   2;\nEND_FUNCTION_BLOCK\n"),
 ];
 
 fn text_of(k: usize) -> &'static str {
